@@ -10,9 +10,9 @@ MC_NOTE = ("Trusted: TLC, the TLA+ specification as a faithful reading of the pr
 # id -> (built?, technique, level text, design ref, note)
 IND_TECH = "; Apalache proves the state clauses inductive for <= N orders with unbounded integers (BookInd.tla, tied to BookOps.tla by a TLC lock-step, BookIndMC.tla)"
 
-BOOK_TECH = "TLA+ spec (BookOps/BookProps/Book.tla) model-checked by TLC; TLC-generated histories replayed into the real OrderBook with full-state comparison; recorded random traces validated by TLC (BookTrace.tla, with the implementation-shaped model BookImpl.tla run in lock-step and bound through the entry keys of the JSON snapshot)"
+BOOK_TECH = "TLA+ spec (BookOps/BookProps/Book.tla) model-checked by TLC; TLC-generated histories replayed into the real OrderBook with full-state comparison (also in translated number systems: prices next to 2^32, volumes above 2^31, epoch-like clocks); recorded random traces validated by TLC (BookTrace.tla, with the implementation-shaped model BookImpl.tla run in lock-step and bound through the entry keys of the JSON snapshot), also through the Python bindings"
 
-ENV_TECH = "TLA+ spec (MarketOps.tla + EnvGen.tla): TLC enumerates every bounded path and, by power-set construction over all permutations, the complete set of outcomes allowed per path; real Env/MarketEnv run per path under several seeds: outcome-set membership (hook-free) + exact match for the hook-reported schedule; long random runs recorded from the real environments validated by TLC (EnvTrace.tla: hook schedule, or hook-free schedule inference)"
+ENV_TECH = "TLA+ spec (MarketOps.tla + EnvGen.tla): TLC enumerates every bounded path and, by power-set construction over all permutations, the complete set of outcomes allowed per path; real Env/MarketEnv run per path under several seeds: outcome-set membership (hook-free) + exact match for the hook-reported schedule; long random runs recorded from the real environments validated by TLC (EnvTrace.tla: hook schedule, or hook-free schedule inference; batches up to 48, quiet steps); Python environment traces validated with the specification's environment run alongside (PyEnvTrace.tla)"
 
 TABLE = {
     "C01": (BOOK_TECH + "; drain probe reveals queue order",
@@ -43,7 +43,7 @@ TABLE = {
             "C13 clauses as TLC action properties; toggles at every position of bounded histories (crossing placements/modifications while disabled, aggressors after re-enabling, rejected market orders), books starting disabled; random traces with frequent toggles.",
             "6 C13"),
     "C08": (ENV_TECH,
-            "For every bounded path of submissions and steps (new limit/market orders, cancels, modifies, several instructions per order, orders created in the same step, single- and multi-asset, trading toggled) TLC computes the complete set of (schedule, outcome) pairs the specification allows - a step is the fold of the plain-book event operator over a permutation at times start+i, then clock = start + step size, queue empty, per-step traded volume. The real environment is run on each path under several seeds: its full projection (books, pending queue via hook, cached level 2, recorded series) must be a member of the set (hook-free decision) and must equal the specification's outcome for the schedule the hook reports.",
+            "For every bounded path of submissions and steps (new limit/market orders, cancels, modifies, several instructions per order, orders created in the same step, single- and multi-asset, trading toggled) TLC computes the complete set of (schedule, outcome) pairs the specification allows - a step is the fold of the plain-book event operator over a permutation at times start+i, then clock = start + step size, queue empty, per-step traded volume. The real environment is run on each path under several seeds: its full projection (books, pending queue via hook, cached level 2, recorded series) must be a member of the set (hook-free decision) and must equal the specification's outcome for the schedule the hook reports. Clocks next to 2^64 and epoch-like clocks by time translation. Sim.tla: the runner loop over random agents as a state machine; complete simulations of 1..3 rounds through the real runner must be members of TLC's outcome sets (no hook, no steering of the generator).",
             "6 C08"),
     "C10": (ENV_TECH,
             "Every interleaving of submissions (including ones that would trade, cancel or re-price at once) and steps within the bounds; the specification changes only the queue and appends a New order, so full-projection equality after every submission is the property; cached level-2 = last record as TLC invariant and compared with the real env.level_2_data().",
@@ -55,19 +55,19 @@ TABLE = {
             "The specification is literally 'independent books sharing one clock'; every bounded history of direct operations over 2-3 assets with per-asset ticks (same local ids on several assets, per-asset and all-asset queries, reloads) is replayed into the real Market and compared asset by asset; independence as TLC action property; shuffled cross-asset batches through MarketEnv outcome sets.",
             "6 C14"),
     "C16": ("TLA+ relations (Agents.tla, Big.tla) between an agent's observation and the instructions it queued; every update call of seeded runs recorded from the real agents is validated by TLC (AgentTrace.tla); aborts caught by the recorder; SimTrace.tla validates the same relations inside complete simulations with the observation derived by TLC from the specification state",
-            "The agents are specified as relations: which instruction sequences are possible given what the agent could observe (own active orders, twice the mid-price, parameters), what is forbidden at probability 0 and mandatory at probability >= 1. Every update call of seeded runs over the parameter matrix (kind x single/multi asset x tick 1..10 x probabilities {0, 0.3, 1, 1.5} x sigma {1, 10} x starting book, plus scripted boundary draws 0 / all-ones) is validated by TLC; prices up to 2^32 handled as digit pairs. A panic anywhere is a violation. Interior probabilities are not measured.",
+            "The agents are specified as relations: which instruction sequences are possible given what the agent could observe (own active orders, twice the mid-price, parameters), what is forbidden at probability 0 and mandatory at probability >= 1. Every update call of seeded runs over the parameter matrix (kind x single/multi asset x tick 1..10 x probabilities {0, 0.3, 1, 1.5} x sigma {1, 10} x starting book, plus scripted boundary draws 0 / all-ones) is validated by TLC; prices up to 2^32 handled as digit pairs. A panic anywhere is a violation. Momentum agents at saturated demand with order ratios 0, 1/2, 1, 2. Sim.tla: TLC checks on every reachable state of the runner loop over random agents that no agent holds two live orders and that orders are as configured, and every outcome of real simulations (tens of thousands of seeds, single- and multi-asset, rates 0 / mid / >= 1) must be one of the outcomes TLC enumerated. Interior probabilities are not measured.",
             "6 C16"),
     "C17": ("TLA+ relation MomentumRel with the momentum signal recomputed exactly by TLC (dyadic integers) from the observed mid-prices; harness-imposed price paths at saturated demand; mirrored run pairs validated by TLC",
-            "At saturated demand the documented rule is deterministic: TLC recomputes M from the logged mid-price sequence (decay 1 and 1/2 exactly) and requires buys for M > 0, sells for M < 0, nothing for M = 0, one market order (and one limit order when the ratio is >= 1) per trader; each run is repeated on the reflected price path with the same seed and TLC requires the reflected order flow (sides swapped, same sizes, prices reflected about the level).",
+            "At saturated demand the documented rule is deterministic: TLC recomputes M from the logged mid-price sequence (decay 1 and 1/2 exactly) and requires buys for M > 0, sells for M < 0, nothing for M = 0, one market order (and one limit order when the ratio is >= 1) per trader; each run is repeated on the reflected price path with the same seed and TLC requires the reflected order flow (sides swapped, same sizes, same steps; limit prices are not compared - they are clamped to the price range, which is not symmetric about the level). Price distributions sigma 1 and 10, order ratios 0, 1/2, 1, 2 (a limit order is certain when ratio x market-order probability >= 1).",
             "6 C17"),
     "C09": ("TLC (SimEq.tla) compares complete simulation outputs of repeated runs in separate OS processes (same seed twice, progress bar on, seeds + 1 and + 2^32, boundary seeds 0/1/2^64-1) line by line; runs go through the public runners with derive-macro agent sets; SimTrace.tla validates complete simulations recorded from inside the runners",
-            "For a seeded matrix of configurations (seeds x step counts x step sizes x tick sizes x six agent compositions incl. nested derived sets, single- and multi-asset) the simulation binary is run as five separate OS processes; TLC requires outputs A = B = C (orders, trades, recorded level-2 history, per-step volume) and D (every seed + 1), E (every seed + 2^32) different from A for every substantial run; the seed list contains 0, 1, 2^32-1, 2^63 and 2^64-1. That the runs are behaviours of the specification at all is decided by SimTrace.tla: complete simulations recorded from inside the real runners (recording agent set, both progress-bar branches) are validated event by event - loop structure of Sim, every step, every submission, every member's instructions. A nondeterminism source stable across these repetitions is not seen.",
+            "For a seeded matrix of configurations (seeds x step counts x step sizes x tick sizes x six agent compositions incl. nested derived sets, single- and multi-asset) the simulation binary is run as five separate OS processes; TLC requires outputs A = B = C (orders, trades, recorded level-2 history, per-step volume) and D (every seed + 1), E (every seed + 2^32) different from A for every substantial run; the seed list contains 0, 1, 2^32-1, 2^63 and 2^64-1. That the runs are behaviours of the specification at all is decided by SimTrace.tla: complete simulations recorded from inside the real runners (recording agent set, both progress-bar branches) are validated event by event - loop structure of Sim, every step, every submission, every member's instructions. Configurations include heavy-tailed price distributions (sigma 10), populations of thousands of agents (more than 1024 instructions per step over both assets) and environments that already have a history when the runner is called. A nondeterminism source stable across these repetitions is not seen.",
             "6 C09"),
-    "C15": ("TLC (Shuffle.tla): Fisher-Yates bijection by enumeration for n <= 6; exact Bernstein + union-bound predicate evaluated by TLC on histograms recorded from >= 2.16*10^5 seeded real steps per batch size; generator-state-only determinism clauses (other instructions, instructions referring to orders created in the same step, environments with a history of earlier steps)",
-            "Statistical: see level text in the evidence. TLC proves the model's uniformity by bijection and evaluates the stated concentration bound on recorded histograms (all n! permutations for n = 2..6, position-by-item and pairwise tables up to n = 64, Env and MarketEnv, mixed instruction kinds) and the determinism clauses.",
+    "C15": ("TLC (Shuffle.tla): Fisher-Yates bijection by enumeration for n <= 6; exact Bernstein + union-bound predicate evaluated by TLC on histograms recorded from >= 2.16*10^5 seeded real steps per batch size (every size 2..64; parity of the permutation; every digit of three bijective codes of the permutation; schedules drawn through the public runners from small consecutive seeds); generator-state-only determinism clauses (other instructions, instructions referring to orders created in the same step, environments with a history of earlier steps)",
+            "Statistical: see level text in the evidence. TLC proves the model's uniformity by bijection and evaluates the stated concentration bound on recorded histograms (all n! permutations for n = 2..6, position-by-item and pairwise tables for every n = 2..64, parity, code digits, Env and MarketEnv, mixed instruction kinds, generators built by sim_runner / market_sim_runner from seeds 0, 1, 2, ...) and the determinism clauses; the numpy environment of the Python layer queues array submissions in the order given and repeats under the same seed.",
             "6 C15"),
     "C20": ("TLC (AgentSet.tla) enumerates struct shapes; generated #[derive(AgentSet)] / #[derive(MarketAgentSet)] structs compiled against the working tree's macro crate; probe traces validated by TLC against Update(shape) and the hand-written sequence",
-            "Struct shapes (1..8 leaves, two leaf types, repeated types, sets nested up to depth 4) x how they are written down (field names in / against / unrelated to alphabetical order; fields carrying doc comments, #[allow], true and false #[cfg] predicates) x both macros; probe agents reveal call order (order ids), generator sharing (draw indices) and environment sharing; three update calls per shape; TLC requires every leaf exactly once per call, in declaration order, draw k to call k.",
+            "Struct shapes (1..8 leaves, two leaf types, repeated types, sets nested up to depth 4) x how they are written down (field names in / against / unrelated to alphabetical order; fields carrying doc comments, #[allow], true and false #[cfg] predicates; one field per line with trailing comma, one line without trailing comma, declared through macro_rules! with `ty` fragments) x both macros; probe agents reveal call order (order ids), generator sharing (draw indices) and environment sharing; three update calls per shape; TLC requires every leaf exactly once per call, in declaration order, draw k to call k.",
             "6 C20"),
 }
 
@@ -75,18 +75,18 @@ TABLE["C18"] = (
     "TLA+ spec PyView.tla (what Python must show for an abstract state) over Book/MarketOps; TLC-generated call sequences (PyBookGen / PyEnvGen, incl. "
     "out-of-range arguments and off-grid prices) driven through the real compiled extension under CPython and compared with TLC's expected values "
     "(outcome sets over all schedules for StepEnv); drain probe; snapshot interchange Python <-> Rust both compared with the specification; same-seed "
-    "cross-check against the Rust Env (schedule hook); random Python call sequences validated by TLC (BookTrace.tla Python clauses, PyTrace.tla)",
+    "cross-check against the Rust Env (schedule hook); random Python call sequences validated by TLC (BookTrace.tla Python clauses, PyTrace.tla, PyEnvTrace.tla: the specification's environment driven by the same calls, steps explained by schedule inference); the repository's own Python tests, documentation code blocks and example script run against recording proxies and validated by TLC",
     "Python and the Rust core are both compared with one specification, and additionally with each other where the property says so: every bounded call "
     "sequence of the Python OrderBook API (place/cancel/modify/set_time/toggles/snapshots, every intermediate state, queue order via drain probe), "
     "exception class and unchanged state for off-grid prices and out-of-range integers (-1, 2^32, 2^64), StepEnv outcome sets over all schedules with "
     "determinism in the seed and the same processed schedule as the Rust Env under the same seed, snapshots written by either side loaded by the other; "
-    "plus long random sequences recorded through the extension and validated by TLC.",
+    "plus long random sequences recorded through the extension and validated by TLC (order table and trade log equal to the specification's after every event); the clock moved backwards through Python; seeds over the whole u64 range and out-of-range constructor arguments; 29 scenarios of the repository itself (its Python tests, documentation, example) as validated traces.",
     "6 C18")
 TABLE["C19"] = (
     "TLA+ spec PyView.tla writes down the documented index tables (L1Array, L2Array), dictionary keys (DictKeys/DictEntry) and data-frame columns once; "
     "TLC computes from them the expected arrays / dictionary / frames for every state of the generator streams (PyEnvGen, asymmetric multi-level books, "
     "StepEnv and StepEnvNumpy, all four array methods, both dictionaries, both helpers) and recomputes them from the reported order table at every event of "
-    "random traces (PyTrace.tla); compared element by element with the real compiled extension (numpy 2.4 under CPython 3.11; pandas stand-in records the column binding)",
+    "random traces (PyTrace.tla) and of the repository's own Python scenarios; compared element by element with the real compiled extension (numpy 2.4 under CPython 3.11; pandas stand-in records the column binding)",
     "Dynamic, through the real extension: for every outcome of every bounded path over asymmetric books spanning several levels, every cell of "
     "level_1_data_array / level_2_data_array / level_1_data / level_2_data, the exact key set and every series of both get_market_data dictionaries and "
     "every column (name, position, content) of both data-frame helpers must equal what PyView.tla specifies; on random traces TLC recomputes all of it "
